@@ -944,4 +944,86 @@ example : (arith .sub (.cont ⟨100, 10, [5, 7]⟩) (.ts [(100, 1), (110, 3)])).
     = some [(100, 4), (110, 4)] := by decide +kernel
 example : (arithScalar .div (.ts [(3, 2), (9, 4)]) 8 true).samples = [(3, 4), (9, 2)] := by decide +kernel
 
+/-! ### division by zero (strengthening round H): `x / 0 = ±inf`, `0 / 0 = nan`, element-wise, propagated -/
+
+/-- On finite operands every operator is the `Rat` operator, except a division by zero. -/
+theorem applyX_finite (op : Op) (x y : Rat) (h : op ≠ .div ∨ y ≠ 0) :
+    op.applyX (.fin x) (.fin y) = .fin (op.apply x y) := by
+  cases op with
+  | add => rfl
+  | sub => simp only [Op.applyX, XVal.neg, XVal.add, Op.apply]; rw [Rat.sub_eq_add_neg]
+  | mul => rfl
+  | div =>
+    have hy : y ≠ 0 := by
+      rcases h with h | h
+      · exact absurd rfl h
+      · exact h
+    simp only [Op.applyX, XVal.div, Op.apply, if_neg hy]
+
+/-- Division by a zero sample: the infinity with the sign of the numerator, `nan` for `0 / 0` (IEEE, what numpy's `/`
+    returns) — never a finite number, and not `nan` for a non-zero numerator. -/
+theorem div_zero_spec (x : Rat) :
+    (0 < x → Op.div.applyX (.fin x) (.fin 0) = .pinf) ∧ (x < 0 → Op.div.applyX (.fin x) (.fin 0) = .ninf) ∧
+      (x = 0 → Op.div.applyX (.fin x) (.fin 0) = .nan) := by
+  simp only [Op.applyX, XVal.div, XVal.ofSign, if_true]
+  refine ⟨fun h => by rw [if_pos h], fun h => ?_, fun h => ?_⟩
+  · rw [if_neg (Rat.not_lt.mpr (Rat.le_of_lt h)), if_pos h]
+  · subst h; decide
+
+/-- `a <op> b` over the extended values: identical timestamps are required and kept, the data are the element-wise
+    results. -/
+theorem arithX_spec (op : Op) (a b r : XChan) (h : arithX op a b = .ok r) :
+    b.ts = a.ts ∧ r.ts = a.ts ∧ r.data = List.zipWith op.applyX a.data b.data := by
+  unfold arithX at h
+  split at h
+  · cases h
+  · rename_i hne
+    have heq : b.ts = a.ts := Classical.not_not.mp hne
+    simp only [Except.ok.injEq] at h
+    subst h
+    exact ⟨heq, rfl, rfl⟩
+
+theorem arithX_refused (op : Op) (a b : XChan) :
+    (b.ts ≠ a.ts → arithX op a b = .error .runtime) ∧ (b.ts = a.ts → ∃ r, arithX op a b = .ok r) := by
+  unfold arithX
+  constructor
+  · intro h; rw [if_pos h]
+  · intro h; rw [if_neg (by simp [h])]; exact ⟨_, rfl⟩
+
+theorem zipWith_applyX_fin (op : Op) : ∀ (xs ys : List Rat), (op ≠ .div ∨ ∀ y ∈ ys, y ≠ 0) →
+    List.zipWith op.applyX (xs.map .fin) (ys.map .fin) = (List.zipWith op.apply xs ys).map .fin
+  | [], _, _ => by simp
+  | _ :: _, [], _ => by simp
+  | x :: xs, y :: ys, h => by
+    have hy : op ≠ .div ∨ y ≠ 0 := h.imp id (fun h => h y (by simp))
+    have ht : op ≠ .div ∨ ∀ y ∈ ys, y ≠ 0 := h.imp id (fun h y' hy' => h y' (by simp [hy']))
+    simp only [List.map_cons, List.zipWith_cons_cons, applyX_finite op x y hy, zipWith_applyX_fin op xs ys ht]
+
+/-- Without a zero divisor the extended arithmetic is `arith` (to which `arith_spec`, `arith_chain`, `sub_eq_add_neg`
+    apply): same refusals, same timestamps, same finite values. -/
+theorem arithX_eq_arith (op : Op) (a b : Src) (ha : a.wf) (hb : b.wf) (hz : op ≠ .div ∨ ∀ y ∈ b.data, y ≠ 0) :
+    arithX op a.toX b.toX = (arith op a b).map Src.toX := by
+  by_cases hts : b.timestamps = a.timestamps
+  · obtain ⟨r, hr⟩ := (arith_refused op a b).2 hts
+    obtain ⟨_, h2, h3, _⟩ := arith_spec op a b ha hb r hr
+    rw [hr]
+    have e : arithX op a.toX b.toX = .ok ⟨a.timestamps, List.zipWith op.applyX (a.data.map .fin) (b.data.map .fin)⟩ := by
+      unfold arithX
+      rw [if_neg (by simp [Src.toX, hts])]
+      rfl
+    rw [e, zipWith_applyX_fin op a.data b.data hz]
+    simp only [Except.map, Src.toX, h2, h3]
+  · rw [(arith_refused op a b).1 hts]
+    unfold arithX
+    rw [if_pos (by simpa [Src.toX] using hts)]
+    rfl
+
+/-- Non-vacuity / the photon-count ratio of the seeded change C04g-m2: `[3, 0, 5, -2] / [1, 0, 0, 0]`. -/
+example : (arithX .div (Src.toX (.cont ⟨100, 10, [3, 0, 5, -2]⟩)) (Src.toX (.ts [(100, 1), (110, 0), (120, 0), (130, 0)]))).toOption.map (·.samples)
+    = some [(100, .fin 3), (110, .nan), (120, .pinf), (130, .ninf)] := by decide +kernel
+/-- the infinity propagates through a chain: `(a / b) * c`, `inf * 0 = nan`, `inf * (-1) = -inf` -/
+example : ((arithX .div (Src.toX (.cont ⟨0, 1, [1, 1, 1]⟩)) (Src.toX (.cont ⟨0, 1, [0, 0, 2]⟩))).toOption.bind fun r =>
+      (arithX .mul r (Src.toX (.cont ⟨0, 1, [0, -1, 4]⟩))).toOption).map (·.data) = some [.nan, .ninf, .fin 2] := by decide +kernel
+example : (arithScalarX .div (Src.toX (.ts [(3, 0), (9, 4)])) (-8) true).data = [.ninf, .fin (-2)] := by decide +kernel
+
 end Verif.C04
